@@ -147,3 +147,9 @@ Definition known_sync_dependency (p : pparams) (d : db) : bool :=
   | PSync => existsb (fun x => andb (mem x (installed d)) (negb (mem x (explicit d)))) (pp_names p)
   | _ => false
   end.
+
+(* K24: check mode does not refresh the sync database (it must not modify the machine), so with
+   update_cache + upgrade it answers "upgradable?" from the stale database, while the real run
+   refreshes first: the two answers differ exactly when the refresh changes the answer *)
+Definition known_check_skips_refresh (p : pparams) (d : db) : bool :=
+  andb (pp_update_cache p) (andb (pp_upgrade p) (xorb (upgradable d) (upgradable (db_refresh d)))).
